@@ -1,12 +1,42 @@
 //! C08 — a key's required arguments are the union over all locales (parser-level part).
 
-use vcommon::ctx::Ctx;
+use serde_json::json;
+use vcommon::ctx::{hash_str, CaseInfo, CaseResult, Ctx, Failure};
 use vcommon::gen::GenCfg;
 use vcommon::tape::Tape;
 
 use crate::eval::Scratch;
-use crate::projcheck::CheckOpts;
-use crate::props::common::project_case;
+use crate::projcheck::{check_project, CheckOpts};
+use crate::props::common::{project_case, std_classes};
+
+/// one inherits map of the enumerated domain with locale-specific member names (see `c08_project_for_map`)
+fn enum_case(map: [usize; 3], scratch: &Scratch) -> CaseResult {
+    let p = vcommon::gen::c08_project_for_map(map);
+    let mut t = Tape::new(vec![]);
+    let opts = CheckOpts {
+        assignments: 1,
+        ..CheckOpts::default()
+    };
+    let st = check_project(&p, &opts, &scratch.0.join("e"), &mut t).map_err(|mut f| {
+        f.detail["case"] = json!({"map": map});
+        f
+    })?;
+    if st.expected_error {
+        return Err(Failure {
+            signature: "harness-model".into(),
+            detail: json!({"error": "the enumerated project is rejected by the model", "kinds": st.expected_error_kinds, "case": {"map": map}}),
+        });
+    }
+    let mut classes = std_classes(&p, &st);
+    classes.push("enumerated-inherits-domain-with-locale-specific-members".to_string());
+    Ok(CaseInfo {
+        hash: hash_str(&format!("c08-enum{map:?}")),
+        nontrivial: true,
+        classes,
+        sample: if map == [2, 3, 0] { Some(json!({"enumerated": {"map": map}, "locales": p.locales, "inherits": p.inherits})) } else { None },
+        observations: st.observations,
+    })
+}
 
 pub fn cfg() -> GenCfg {
     GenCfg {
@@ -33,14 +63,43 @@ pub fn run(mut ctx: Ctx) -> ! {
         project_case(t, cfg(), CheckOpts::default(), &scratch, None, &|_, st| st.multi_locale_sig > 0 && !st.expected_error)
     };
     if let Some(path) = ctx.replay.clone() {
-        ctx.replay_tape("l1", &path, case);
+        if vcommon::ctx::Ctx::replay_engine(&path).as_deref() == Some("l1-enum") {
+            let v: serde_json::Value = serde_json::from_str(&std::fs::read_to_string(&path).unwrap_or_default()).unwrap_or_default();
+            let m: Vec<usize> = v["detail"]["case"]["map"].as_array().map(|a| a.iter().map(|x| x.as_u64().unwrap_or(0) as usize).collect()).unwrap_or_default();
+            if m.len() == 3 {
+                match enum_case([m[0], m[1], m[2]], &scratch) {
+                    Ok(i) => ctx.record(i),
+                    Err(f) => {
+                        ctx.fail("l1-enum", None, &f);
+                    }
+                }
+            }
+        } else {
+            ctx.replay_tape("l1", &path, case);
+        }
     } else {
+        // the enumerated 4-locale domain: every inherits map x every presence pattern, members named after their locale
+        let mut complete = true;
+        for m in 0..125usize {
+            match enum_case([m % 5, (m / 5) % 5, m / 25], &scratch) {
+                Ok(i) => ctx.record(i),
+                Err(f) => {
+                    complete = false;
+                    if ctx.fail("l1-enum", None, &f) {
+                        break;
+                    }
+                }
+            }
+        }
+        ctx.set_extra("enumerated_domain", json!({"inherits_maps": 125, "presence_patterns": 27, "complete": complete}));
         let cases = ctx.tier.scale(4000, 120000);
         ctx.run_tapes("l1", cases, 1500, case);
     }
     drop(scratch);
     ctx.finish(
-        "generated projects whose keys differ per locale in kind (string / interpolation / literal of each JSON type / range of \
+        "part 1 (exhaustive): the enumerated 4-locale domain (125 inherits maps x 27 presence patterns x 4 value kinds, groups, and 7 \
+         reference shapes per pattern) in which every locale names its variables and components after itself, so the required member \
+         set of a key names the locales its values came from. part 2 (random): generated projects whose keys differ per locale in kind (string / interpolation / literal of each JSON type / range of \
          each numeric type / plural / reference renaming or fixing a count) and in variable / component sets; a few percent carry a \
          deliberate count conflict (two range types, or range + plural on one count variable) that must be rejected. oracle: the \
          InterpolOrLit the parser computes for each key (variables, components, count kind and type) equals the union over locales \
